@@ -853,3 +853,61 @@ def c13_random(cc, use_registry, pins):
             if (c, key) not in idx:
                 return f"unlisted bank seed {seed}"
     return "ok"
+
+
+def c16_list(a, b):
+    import copy
+
+    import schwifty
+    from schwifty.bban import BBAN
+
+    objs = [BBAN("DK", a), BBAN("FI", b), schwifty.BIC(b, allow_invalid=True), schwifty.IBAN(a, allow_invalid=True)]
+    ys = copy.deepcopy(objs)
+    for x, y in zip(objs, ys):
+        if type(x) is not type(y) or x != y or getattr(x, "__dict__", {}).get("country_code") != getattr(y, "__dict__", {}).get("country_code"):
+            return "differs"
+    return "ok"
+
+
+def _gen_obs(cc, c):
+    import schwifty
+
+    try:
+        x = schwifty.IBAN.generate(cc, c.get("bank_code", ""), c.get("account_code", ""), c.get("branch_code", ""))
+    except Exception as e:  # noqa: BLE001
+        return [["exc", type(e).__name__]]
+    return [["ret", str(x)]] + [[getattr(x, a)] for a in ("bank_code", "branch_code", "account_code", "national_checksum_digits")]
+
+
+def c15_genpair(cca, ca, ccb, cb):
+    import json
+    import subprocess
+    import sys
+
+    code = "import sys, json; sys.path.insert(0, '/verif'); from spec.replay_preds import _gen_obs; print(json.dumps(_gen_obs(sys.argv[1], json.loads(sys.argv[2]))))"
+    fresh = json.loads(subprocess.run([sys.executable, "-c", code, ccb, json.dumps(cb)], capture_output=True, text=True, env=__import__("os").environ).stdout.strip().splitlines()[-1])
+    _gen_obs(cca, ca)
+    return "ok" if fresh == json.loads(json.dumps(_gen_obs(ccb, cb))) else "differs"
+
+
+def c15_lookup(cc, code, bban):
+    """registry rows for the key before and after the look-ups (identity and order)"""
+    import schwifty
+    from schwifty import registry
+    from schwifty.bic import BIC
+
+    rows = registry.get("bank_code").get((cc, code)) or []
+    before = [id(e) for e in rows]
+    snap = [dict(e) for e in rows]
+    try:
+        x = schwifty.IBAN.from_bban(cc, bban)
+        x.bic, x.bank_name
+    except Exception:  # noqa: BLE001
+        pass
+    for f in (BIC.candidates_from_bank_code, BIC.from_bank_code):
+        try:
+            f(cc, code)
+        except Exception:  # noqa: BLE001
+            pass
+    rows2 = registry.get("bank_code").get((cc, code)) or []
+    return "ok" if [id(e) for e in rows2] == before and [dict(e) for e in rows2] == snap else "registry changed"
